@@ -216,7 +216,7 @@ impl Property for C03 {
     }
     fn runs(&self, tier: Tier) -> u64 {
         match tier {
-            Tier::Quick => 128,
+            Tier::Quick => 224,
             Tier::Thorough => 4000,
         }
     }
